@@ -187,6 +187,14 @@ def run_configs(ctx):
         key("relpath")
         if not ctx.judge("relative-paths", rs[3], rs[4]["files"]):
             return False
+        # the spec root itself as working directory ("."), and a spelling with redundant components
+        for spelling, cwd in ((".", xml), ("./xml/../xml", ctx.base)):
+            rs = ctx.child([{"op": "rmtree", "dir": o}, {"op": "chdir", "dir": cwd}, {"op": "new", "xml": spelling},
+                            {"op": "generate", "out": o}, {"op": "digest", "dir": o}], "0")
+            res.count("fault.relative_paths")
+            key("relpath", spelling)
+            if not ctx.judge("relative-paths", rs[3], rs[4]["files"]):
+                return False
     # ---- unrelated files and directories next to the spec files ---------------------------------------
     if "noise" in configs:
         xmln = ctx.write_xml(tree, "xml_noise")
